@@ -139,7 +139,7 @@ func specRpqInWindow(q *receivePayloadQueue, t uint32) bool {
 //@   requires rpqCount(q)
 //@   ensures#view result == specRpqHas(q, tsn)
 //@   modifies nothing
-//@   tags C05 C16
+//@   tags C01 C05 C16
 //@   safety C03
 
 //@ func receivePayloadQueue.canPush
@@ -147,7 +147,7 @@ func specRpqInWindow(q *receivePayloadQueue, t uint32) bool {
 //@   requires rpqCount(q)
 //@   ensures#admit result == (specRpqInWindow(q, tsn) && !specRpqHas(q, tsn))
 //@   modifies nothing
-//@   tags C05 C11 C16
+//@   tags C01 C05 C11 C16
 //@   safety C03
 
 //@ func receivePayloadQueue.push
@@ -161,7 +161,7 @@ func specRpqInWindow(q *receivePayloadQueue, t uint32) bool {
 //@   ensures#cum q.cumulativeTSN == old(q.cumulativeTSN) && q.maxTSNOffset == old(q.maxTSNOffset)
 //@   ensures#tail q.tailTSN-q.cumulativeTSN >= old(q.tailTSN-q.cumulativeTSN)
 //@   modifies q.tsnBitmask[*], q.chunkSize, q.tailTSN, q.dupTSN, q.dupTSN[*]
-//@   tags C05 C11 C16
+//@   tags C01 C05 C11 C16
 //@   safety C03
 
 //@ func receivePayloadQueue.pop
@@ -175,7 +175,7 @@ func specRpqInWindow(q *receivePayloadQueue, t uint32) bool {
 //@   ensures#noop !result && !force ==> q.cumulativeTSN == old(q.cumulativeTSN) && q.tailTSN == old(q.tailTSN) && q.chunkSize == old(q.chunkSize)
 //@   ensures#noop-view !result && !force ==> forall t uint32 :: specRpqHas(q, t) == old(specRpqHas(q, t))
 //@   modifies q.tsnBitmask[*], q.chunkSize, q.tailTSN, q.cumulativeTSN
-//@   tags C05 C16
+//@   tags C01 C05 C16
 //@   safety C03
 
 // ---- C19: retransmission timers (IEEE-754 binary64 semantics) ----
@@ -332,7 +332,7 @@ func ifaceIs(x any, p any) bool     { return true }
 //@   ensures rpqInv(result)
 //@   ensures rpqCount(result)
 //@   ensures#empty result.chunkSize == 0 && result.maxTSNOffset >= maxTSNOffset && result.maxTSNOffset <= 40000+63
-//@   tags C05 C11 C16
+//@   tags C01 C05 C11 C16
 //@   safety C03
 
 // ---- C12/C03: chunk header and DATA / I-DATA codec ----
